@@ -97,6 +97,9 @@ def _close(x, y, tol):
             continue
         if not (isinstance(u, float) and isinstance(w, float)):
             return False
+        if not (math.isfinite(u) and math.isfinite(w)):
+            # an overflowing product: inf / nan / 0 depending on the order of the factors (inf * 0 = nan) -- not comparable
+            continue
         if not abs(u - w) <= tol * max(abs(u), abs(w), 1.0):
             return False
     return True
@@ -248,6 +251,21 @@ def gen_read_op(rng, shape, sd):
         if rng.random() < 0.25:
             return kind, [], lambda x: getattr(x, kind)()
         d = rand_dim(rng, r)
+        if kind in ("sum", "mean", "prod") and rng.random() < 0.4:
+            # the options of `_cast_reduction`: reduce=True (one tensor across the leaves) with / without a dim,
+            # dim="feature", keepdim, dtype
+            how = rng.choice(["reduce_dim", "reduce_all", "feature", "keepdim", "dtype", "reduce_dim_keepdim"])
+            if how == "reduce_dim":
+                return kind, [d, how], lambda x: getattr(x, kind)(dim=d, reduce=True)
+            if how == "reduce_all":
+                return kind, [how], lambda x: getattr(x, kind)(reduce=True)
+            if how == "feature":
+                return kind, [how], lambda x: getattr(x, kind)(dim="feature")
+            if how == "keepdim":
+                return kind, [d, how], lambda x: getattr(x, kind)(dim=d, keepdim=True)
+            if how == "dtype":
+                return kind, [d, how], lambda x: getattr(x, kind)(dim=d, dtype=torch.float64)
+            return kind, [d, how], lambda x: getattr(x, kind)(dim=d, keepdim=True, reduce=True)
         return kind, [d], lambda x: getattr(x, kind)(d)
     if kind == "cmp":
         op = rng.choice(["__eq__", "__ne__", "__lt__", "__le__", "__gt__", "__ge__"])
@@ -506,12 +524,83 @@ def no_dup_writes(ix):
     return True
 
 
+def gen_extra_mut_op(rng, shape, sd, bs, n):
+    """more in-place entry points (each writes through to the member objects): whole-tensordict copies, state dicts, in-place
+    arithmetic with a number / another tensordict (lazy operand for the lazy side), apply / named_apply in place, update with
+    keys_to_update / inplace=True, setdefault, copy_at_, clear"""
+    other = value_for(rng, tuple(shape))
+
+    def src(x):
+        # the operand: a lazy stack (same stack dim) for the lazy side, the dense tensordict for the dense side
+        o = other.clone()
+        if isinstance(x, LazyStackedTensorDict):
+            return LazyStackedTensorDict(*[t.clone() for t in o.unbind(sd)], stack_dim=sd)
+        return o
+
+    dense_src = rng.random() < 0.4      # a DENSE operand for the lazy side too (paired member-wise along the stack dim)
+
+    def src(x, _src=src):    # noqa: F811
+        return other.clone() if dense_src else _src(x)
+
+    name = rng.choice(["copy_", "copy_dense_src", "load_state_dict", "add_number", "add_td", "mul_td", "sub_alpha", "clamp_max_", "neg_",
+                       "apply_inplace", "named_apply_inplace", "update_keys", "update_inplace_kw", "update__keys", "setdefault_new",
+                       "setdefault_old", "copy_at_", "imul", "clear", "lerp_"])
+    if name == "copy_":
+        return name, [], lambda x: x.copy_(src(x))
+    if name == "copy_dense_src":
+        return name, [], lambda x: x.copy_(other.clone())
+    if name == "load_state_dict":
+        return name, [], lambda x: x.load_state_dict(other.clone().state_dict())
+    if name == "add_number":
+        return name, [], lambda x: x.add_(1.5)
+    if name == "add_td":
+        return name, [dense_src], lambda x: x.add_(src(x))
+    if name == "mul_td":
+        return name, [dense_src], lambda x: x.mul_(src(x))
+    if name == "sub_alpha":
+        return name, [dense_src], lambda x: x.sub_(src(x), alpha=2)
+    if name == "lerp_":
+        return name, [dense_src], lambda x: x.lerp_(src(x), 0.5)
+    if name == "clamp_max_":
+        return name, [], lambda x: x.clamp_max_(500.0)
+    if name == "neg_":
+        return name, [], lambda x: x.neg_()
+    if name == "apply_inplace":
+        return name, [], lambda x: x.apply(lambda t: t * 2 + 1, inplace=True)
+    if name == "named_apply_inplace":
+        return name, [], lambda x: x.named_apply(lambda k, t: t + len(k), inplace=True, nested_keys=True)
+    if name == "update_keys":
+        ks = rng.choice([["a"], ["b", ("n", "c")], [("n", "c")]])
+        return name, [str(ks)], lambda x: x.update(src(x), keys_to_update=ks)
+    if name == "update_inplace_kw":
+        return name, [], lambda x: x.update(src(x), inplace=True)
+    if name == "update__keys":
+        ks = rng.choice([["b"], ["a", "b"]])
+        return name, [str(ks)], lambda x: x.update_(src(x), keys_to_update=ks)
+    if name == "setdefault_new":
+        return name, [], lambda x: x.setdefault("zz", other["a"].clone())
+    if name == "setdefault_old":
+        return name, [], lambda x: x.setdefault("a", other["a"].clone())
+    if name == "copy_at_":
+        if not shape or shape[0] == 0:
+            return name, ["all"], lambda x: x.copy_(src(x))
+        j = rng.randrange(shape[0])
+        return name, [j], lambda x: x.copy_at_(src(x)[j], j)
+    if name == "imul":
+        return name, [], lambda x: x.__imul__(2)
+    if name == "clear":
+        return name, [], lambda x: x.clear()
+    raise AssertionError(name)
+
+
 def gen_mut_op(rng, shape, sd, bs, n):
     r = len(shape)
     kind = rng.choice(["setitem", "setitem", "setitem", "setitem_bcast", "set_at_", "set_key", "set_key_", "set_nested",
                        "update", "update_", "update_lazy", "update_at_", "fill_", "zero_", "masked_fill_", "apply_",
                        "insert", "append", "del_", "rename_key_", "pop", "setitem_scalar_tensor", "iadd",
-                       "popitem", "apply_other_"])
+                       "popitem", "apply_other_", "extra", "extra"])
+    if kind == "extra":
+        return gen_extra_mut_op(rng, shape, sd, bs, n)
     if kind in ("setitem", "setitem_bcast", "update_at_", "set_at_", "setitem_scalar_tensor"):
         for _ in range(20):
             ix = G.gen_index(rng, shape)
@@ -786,6 +875,113 @@ def member_write_stream(run, n_cases):
             run.oracle_fail("member_write", dict(case, ix=ix), f"write to member {i} ({how}) not visible through the stack: {d}", f"member_write:{how}")
         else:
             run.oracle_ok("member_write")
+
+
+# ----------------------------------------------------------------------------- lock / unlock histories (memoised reads must never be stale)
+def _lock_view_diff(L, ms, sd):
+    """everything a (possibly memoising) locked stack answers from its members vs the dense stack of the CURRENT members"""
+    D = dense_of(ms, sd)
+    d = G.same_td(L, D)
+    if d:
+        return d
+    for kw in ((), (True, True), (True, False), (False, True)):
+        kl, kd = sorted(map(str, L.keys(*kw))), sorted(map(str, D.keys(*kw)))
+        if kl != kd:
+            return f"keys{kw}: {kl} vs {kd}"
+    for k in D.keys():
+        vd = D.get(k)
+        vl = L.get(k)
+        if hasattr(vd, "batch_size") and hasattr(vd, "keys"):
+            d = G.same_td(vl, vd)
+            if d:
+                return f"nested entry {k!r} read as a tensordict: {d}"
+        elif not torch.equal(vl, vd):
+            return f"values of {k!r}: {vl.reshape(-1).tolist()[:12]} vs {vd.reshape(-1).tolist()[:12]}"
+    return diff_canon(canon(L), canon(D))
+
+
+def lock_history_stream(run, n_cases):
+    """a lazy stack under every way of being locked (the stack itself, its members before / after stacking, nobody), read
+    through the memoised paths, then its members unlocked, modified (new key, deleted key, rebound leaf / nested node,
+    in-place write) and locked again, 1-3 rounds: after every round the stack must read like the dense stack of its members"""
+    global NESTED_EXTRA
+    rng = run.rng
+    for _ in range(n_cases):
+        NESTED_EXTRA = False
+        rank = rng.choice([0, 1, 1, 2])
+        bs = tuple(rng.choice([1, 2, 3]) for _ in range(rank))
+        n = rng.randint(1, 3)
+        sd = rng.randint(0, rank)
+        ms = mk_members(bs, n)
+        mode = rng.choice(["members_before", "members_before", "members_after", "stack", "nobody"])
+        if mode == "members_before":
+            for m in ms:
+                m.lock_()
+        L = LazyStackedTensorDict(*ms, stack_dim=sd) if rng.random() < 0.5 else lazy_stack(ms, sd)
+        if mode == "members_after":
+            for m in ms:
+                m.lock_()
+        elif mode == "stack":
+            L.lock_()
+        steps = []
+        case = {"bs": list(bs), "n": n, "sd": sd, "mode": mode, "steps": steps}
+        run.case(("lockhist", bs, n, sd, mode))
+        run.count("lock_history.mode", mode)
+        d = None
+        try:
+            d = _lock_view_diff(L, ms, sd)           # first read: fills whatever is memoised
+            where = "first read"
+            for rnd in range(rng.randint(1, 3)):
+                if d:
+                    break
+                how = rng.choice(["new_key", "del_key", "rebind_nested", "rebind_leaf", "inplace", "new_nested_key"])
+                via = "stack" if (mode == "stack" and rng.random() < 0.8) else "members"
+                steps.append([how, via])
+                run.count("lock_history.how", how)
+                # unlock
+                if via == "stack":
+                    L.unlock_()
+                else:
+                    for m in ms:
+                        if m.is_locked:
+                            m.unlock_()
+                # modify
+                for j, m in enumerate(ms):
+                    if how == "new_key":
+                        m.set(f"fresh{rnd}", m["a"] + j + 0.5)
+                    elif how == "del_key":
+                        if "b" in m.keys():
+                            del m["b"]
+                    elif how == "rebind_nested":
+                        m.set("n", TensorDict({"c": m["a"] * 0 + 70 + j + rnd}, list(bs)))
+                    elif how == "rebind_leaf":
+                        m.set("a", m["a"] * 0 - 5 - j - rnd)
+                    elif how == "inplace":
+                        m["a"].add_(3 + j)
+                    else:
+                        m.set(("n", f"extra{rnd}"), m["a"] + 9 + j)
+                # lock again (the same way, or another one)
+                relock = rng.choice([mode, mode, "members_after", "stack", "nobody"]) if mode != "members_before" else rng.choice(["members_after", "members_after", "nobody"])
+                steps[-1].append(relock)
+                if relock in ("members_after", "members_before"):
+                    for m in ms:
+                        m.lock_()
+                elif relock == "stack":
+                    L.lock_()
+                where = f"after round {rnd} ({how}, unlocked via {via}, locked again: {relock})"
+                d = _lock_view_diff(L, ms, sd)
+                if mode != "members_before":
+                    mode = relock if relock != "members_before" else "members_after"
+        except TimeoutError:      # a slow box is an infrastructure problem (exit 2), never a verdict
+            raise
+        except Exception as e:  # noqa: BLE001  (e.g. unlocking a member of a locked stack is refused)
+            run.count("lock_history.raises", type(e).__name__)
+            run.oracle_ok("lock_history_raises")
+            continue
+        if d:
+            run.oracle_fail("lock_history", case, f"{where}: the stack does not read like the dense stack of its members: {d}", f"lock_history:{case['mode']}")
+        else:
+            run.oracle_ok("lock_history")
 
 
 # ----------------------------------------------------------------------------- views and copies
